@@ -219,6 +219,50 @@ def _clock_only_formatted(F, call):
     return True
 
 
+def _ptr_roots(F, e, depth=0, seen=None):
+    """the objects a pointer expression may point into: names of parameters / arrays / pointer fields it is derived from by
+    arithmetic, or 'data:<text>' when the pointer value itself is loaded from memory (an element of an array of pointers,
+    *p, a call result)"""
+    from ..util import local_defs
+    seen = set() if seen is None else seen
+    x = e.strip(casts=True)
+    if depth > 6:
+        return {"data:" + x.text()[:30]}
+    if x.k == "BinaryOperator" and x.d["op"] in ("+", "-"):
+        ps = [k for k in x.kids if k.ty.endswith("*") or k.ty.endswith("]")]
+        return _ptr_roots(F, ps[0], depth + 1, seen) if len(ps) == 1 else {"data:" + x.text()[:30]}
+    if x.k == "UnaryOperator" and x.d["op"] == "&":
+        y = x.kids[0].strip()
+        if y.k == "ArraySubscriptExpr":
+            return _ptr_roots(F, y.kids[0], depth + 1, seen)
+        return {"&" + y.text()}
+    if x.k == "UnaryOperator" and x.d["op"] in ("++", "--"):
+        return _ptr_roots(F, x.kids[0], depth + 1, seen)
+    if x.k == "ConditionalOperator":
+        return _ptr_roots(F, x.child("then"), depth + 1, seen) | _ptr_roots(F, x.child("else"), depth + 1, seen)
+    if x.k == "DeclRefExpr":
+        if x.d.get("dk") == "Parm" or x.d.get("g") or x.ty.endswith("]"):
+            return {x.d["name"]}
+        did = x.d["did"]
+        if did in seen:
+            return set()
+        seen.add(did)
+        out = set()
+        for d, _ in local_defs(F, did):
+            if d is None:
+                continue
+            d0 = d.strip(casts=True)
+            if d0.cv == 0 or "NULL" in "".join(d0.mac or []):
+                continue
+            r = _ptr_roots(F, d, depth + 1, seen)
+            # a variable that holds a pointer obtained from a call or loaded from memory pins one object: it is the root
+            out |= {("var:" + x.d["name"]) if q.startswith("data:") else q for q in r}
+        return out or {x.d["name"]}
+    if x.k == "MemberExpr" and not any(k.k in ("ArraySubscriptExpr", "CallExpr") for k in x.walk() if k is not x):
+        return {"var:" + x.text()}          # a pointer field: one pinned value per spelling
+    return {"data:" + x.text()[:30]}
+
+
 def r03d(ck, prog, cg, roots=("kalign_run",), rule="R03d"):
     reach = cg.reachable(set(roots))
     nfn = 0
@@ -247,9 +291,19 @@ def r03d(ck, prog, cg, roots=("kalign_run",), rule="R03d"):
                              name, c.callee, roots[0]), prog.config)
         for b in F.body.find("BinaryOperator"):
             if b.d["op"] in ("<", ">", "<=", ">=") and all(k.ty.endswith("*") for k in b.kids):
-                ck.violation(rule, "%s/%s/ptr-order" % (rule, name), site(prog, b),
-                             "%s orders pointer values (%s): heap addresses depend on allocation history / input order" % (
-                                 name, b.text()), prog.config)
+                ra, rb = _ptr_roots(F, b.kids[0]), _ptr_roots(F, b.kids[1])
+                if len(ra) == 1 and ra == rb and not next(iter(ra)).startswith("data:"):
+                    # cursor and end of one array (p = base; end = base + n; p < end): positions, not addresses, are compared
+                    ck.inst(rule, site(prog, b), "%s compares two pointers into the same array %s (%s)" % (name, next(iter(ra)), b.text()), prog.config)
+                    continue
+                if any(r.startswith("data:") for r in ra | rb) or \
+                        (len(ra) == 1 and len(rb) == 1 and ra != rb and all(r.startswith("var:") for r in ra | rb)):
+                    ck.violation(rule, "%s/%s/ptr-order" % (rule, name), site(prog, b),
+                                 "%s orders pointer values (%s): heap addresses depend on allocation history / input order" % (
+                                     name, b.text()), prog.config)
+                    continue
+                raise AnalysisBroken("%s: %s compares the pointers %s; whether they point into one array is not decided (%s / %s)" % (
+                    rule, name, b.text(), sorted(ra), sorted(rb)))
         for x in F.body.walk():
             if x.k in ("CStyleCastExpr", "ImplicitCastExpr") and x.d.get("ck") == "PointerToIntegral":
                 ck.violation(rule, "%s/%s/ptr-int" % (rule, name), site(prog, x),
@@ -336,6 +390,7 @@ def run(ck, progs):
     for want in ("R03d/ctl_uses_rand/rand", "R03d/ctl_ptr_order/ptr-order", "R03d/ctl_ptr_hash/ptr-int", "R03d/ctl_clock/time"):
         ck.control("R03d", want, want in keys, True)
     ck.control("R03d", "ctl_clean", any("ctl_clean" in k for k in keys), False)
+    ck.control("R03d", "ctl_ptr_same", any("ctl_ptr_same" in k for k in keys), False)
     return ("Non-interference of input order: CFG dominance of the canonical sort over every positional consumer in "
             "kalign_run; field-level read set and shape of the (len,name) comparator; who-may-read/write of msa_seq.rank "
             "over all functions; call-graph reachability from kalign_run to random sources, clocks, pointer ordering and "
